@@ -30,6 +30,10 @@ pub struct Ref {
     /// reference window extremes (min, max) of the series the indicator reads
     pub wmin: f64,
     pub wmax: f64,
+    /// reference denominator of the defining ratio (CCI: MAD; MFI: total flow), NaN otherwise
+    pub den: f64,
+    /// MFI: largest flow that entered the totals within `hist`
+    pub maxflow: f64,
 }
 
 impl Ref {
@@ -46,6 +50,8 @@ impl Ref {
             scale: m,
             wmin: f64::NAN,
             wmax: f64::NAN,
+            den: f64::NAN,
+            maxflow: 0.0,
         }
     }
     fn one(mut self, x: f64) -> Ref {
@@ -457,6 +463,7 @@ pub fn reference(cfg: &Cfg, hist: &[Op]) -> Ref {
                 return r.one(0.0);
             }
             r.cond = m / mad.f();
+            r.den = mad.f();
             let tp = tps[tps.len() - 1];
             r.one(tp.sub(mean).div(mad.mul(Dd::new(3.0).divf(200.0))).f())
         }
@@ -495,6 +502,8 @@ pub fn reference(cfg: &Cfg, hist: &[Op]) -> Ref {
                 return r.one(50.0);
             }
             r.cond = maxflow / den.f().abs();
+            r.den = den.f();
+            r.maxflow = maxflow;
             r.one(pmf.mulf(100.0).div(den).f())
         }
         Kind::Obv => {
